@@ -52,10 +52,11 @@ class Current(pd.Series):
         Raises:
             TypeError: Raised if other is not of type Current.
         """
-        if isinstance(other, Current):
+        # A scalar multiple of a Current may be a plain pandas Series.
+        if isinstance(other, pd.Series):
             return Current(self.add(other, fill_value=0))
         else:
-            TypeError("Must be of type Current.")
+            raise TypeError("Must be of type Current.")
 
     # Allow for right addition as well.
     __radd__ = __add__
@@ -69,3 +70,15 @@ class Current(pd.Series):
             Current: self - other
         """
         return Current(self.add(-1 * other, fill_value=0))
+
+    def __rsub__(self, other):
+        """ Return Current which is other minus self, for a plain Series other
+        (e.g. a scalar multiple of a Current).
+        """
+        return Current(pd.Series(other).add(-1 * self, fill_value=0))
+
+    def __mul__(self, other):
+        """ Return Current which is self scaled by the scalar other. """
+        return Current(super().__mul__(other))
+
+    __rmul__ = __mul__
